@@ -5,7 +5,7 @@ import fw
 RULE = ("generated label trees up to depth 4 with local names repeated under different parents, local and global constants (literal, "
         "chained through other constants in any order, address-dependent), references from every position at every dot-level and "
         "through dotted paths, emitted by `#d16`, by an untyped instruction operand and by a size-switching instruction (so that "
-        "addresses move between passes); faults: duplicate declaration in one scope, declaration or reference that skips a level, "
+        "addresses move between passes); faults: undeclared names (bare, relative, and as a non-final component of a dotted path ending in a global's name), duplicate declaration in one scope, declaration or reference that skips a level, "
         "undeclared name. Expected values come from a direct reading of the statement (scope tree computed in Python); the "
         "implementation and the Lean model are run on every program, and on a twin in which one address-free global constant "
         "declaration is moved to another position with the same enclosing symbol. Programs in which a constant stands between a label "
@@ -141,6 +141,21 @@ def fill_refs(rng, lines, fault):
         out.insert(rng.randrange(len(out)), ("ref", 0, ["nosuch"], "d16"))
     elif fault == "undeclared_rel":
         out.insert(rng.randrange(len(out)), ("ref", 1, ["nosuch"], "d16"))
+    elif fault == "undeclared_mid":
+        # a dotted path whose non-final component is undeclared in the scope reached so far, while its
+        # last component is the name of an existing global: still an unknown symbol
+        globs = [p[0] for p in paths if len(p) == 1]
+        g = rng.choice(globs) if globs else "nosuch2"
+        i = rng.randrange(len(out) + 1)
+        _, ctx2, _ = scope_walk(out, False)
+        depth = len(ctx2[i - 1]) if i > 0 else 0
+        form = rng.randrange(3)
+        if form == 0 or not globs:
+            out.insert(i, ("ref", 0, ["nosuch", g], rng.choice(["d16", "emit"])))
+        elif form == 1:
+            out.insert(i, ("ref", 0, [rng.choice(globs), "nosuch", g], rng.choice(["d16", "emit"])))
+        else:
+            out.insert(i, ("ref", rng.randrange(0, depth + 1), ["nosuch", g], "d16"))
     elif fault == "ref_skip":
         # more dots than the context is deep at that point
         i = rng.randrange(len(out))
@@ -303,7 +318,7 @@ def run(chk):
     for _ in range(n):
         g = Gen(rng)
         g.build()
-        fault = rng.choice([None] * 7 + ["undeclared", "undeclared_rel", "ref_skip", "dup", "decl_skip"])
+        fault = rng.choice([None] * 7 + ["undeclared", "undeclared_rel", "undeclared_mid", "ref_skip", "dup", "decl_skip"])
         lines = fill_refs(rng, g.lines, fault)
         cases.append((lines, fault, "base"))
         mv = move_constant(rng, lines) if fault is None and rng.random() < 0.5 else None
